@@ -16,8 +16,48 @@ func bfsRec(tier string) *BFSDef {
 	return &BFSDef{Name: "recursive", Family: "rec", Base: map[string]any{"init": []string{"RA w/r", "RA w/r2"}}, Alphabet: al, Depth: d}
 }
 
+// recJobs: long histories - more than ten renames seen by one Watcher (the
+// ten-slot cookie ring wraps), with file operations in the renamed subtree and
+// in its prefix-sharing sibling after every rename.
+func recJobs(tier string) []Job {
+	var hs [][]string
+	for _, n := range []int{9, 10, 11, 12, 21} {
+		var h []string
+		cur := "sub"
+		for i := 0; i < n; i++ {
+			next := "moved"
+			if cur == "moved" {
+				next = "sub"
+			}
+			h = append(h, "mv w/r/"+cur+" w/r/"+next, "touch w/r/"+next+"/d/t", "rm w/r/"+next+"/d/t", "touch w/r/sub2/t", "rm w/r/sub2/t")
+			cur = next
+		}
+		hs = append(hs, h)
+		// the same with file renames in between counting towards the ten
+		var h2 []string
+		cur = "sub"
+		for i := 0; i < n; i++ {
+			if i%2 == 0 {
+				h2 = append(h2, "mv w/r/f w/r/g", "mv w/r/g w/r/f")
+			}
+			next := "moved"
+			if cur == "moved" {
+				next = "sub"
+			}
+			h2 = append(h2, "mv w/r/"+cur+" w/r/"+next, "touch w/r/"+next+"/d/t", "rm w/r/"+next+"/d/t")
+			cur = next
+		}
+		hs = append(hs, h2)
+	}
+	var jobs []Job
+	for _, h := range hs {
+		jobs = append(jobs, Job{Family: "seq-batch", Params: map[string]any{"family": "rec", "base": map[string]any{"init": []string{"RA w/r", "RA w/r2"}}, "histories": [][]string{h}}})
+	}
+	return jobs
+}
+
 func init() {
-	Checks["C19"] = &CheckDef{Prop: "C19", BFS: func(tier string) []*BFSDef { return []*BFSDef{bfsRec(tier)} },
+	Checks["C19"] = &CheckDef{Prop: "C19", Jobs: recJobs, BFS: func(tier string) []*BFSDef { return []*BFSDef{bfsRec(tier)} },
 		Rule:      "E2: BFS over histories on two recursive roots whose trees contain prefix-sharing siblings (dir1/dir10, sub/sub2, each with children): mkdir one level at a time, rename of inner directories within the tree (also into a sibling), file operations at every directory, re-mkdir of a moved-away name, Remove/Add of either root; quiescence after every step. A state is the canonical tree picture plus the library tables keyed by inode rank",
 		Technique: "explicit-state model checking (BFS on the real code, recursion switched on through the verif hook); oracle = every event carries the true current path of its directory (inode walk of the real tree) with the documented Op and old name, the kernel's mark list equals the set of directories of the active trees in every state, WatchList stays inside the active trees",
 		Assume:    []string{"mkdir -p bursts and directories moved in from / out to the outside are excluded, as the property states"}}
